@@ -13,7 +13,7 @@ Lemma wakeup_final k s :
   final_src s \/ (needs_event (fl s) = true /\ deleted (fl s) = false).
 Proof.
   intros HS Hc Hw. specialize (Hw (mkO false false false false false false false false)).
-  destruct s as [f inst w ar nd he hc hr pe kr]; destruct f as [fc fw fn fd fr]; destruct k as [kt kd kre].
+  destruct s as [f inst w ar nd he hc hr pe kr ka]; destruct f as [fc fw fn fd fr]; destruct k as [kt kd kre].
   cbn in Hc. subst fc. unfold wakeup_target, canc_or_rel, refs_needs_rearm, needs_rearm_du, registered, dkq, retq_of in Hw.
   unfold Sinv, final_src, registered in *. cbn in *.
   destruct inst, hr, nd, fd, fn, kt, kd, ar, he, hc; cbn in *; try discriminate; try (right; split; reflexivity);
@@ -21,7 +21,7 @@ Proof.
 Qed.
 
 (* ------------------------------------------------------------------ small facts about the one-line transitions *)
-Ltac open_s s := destruct s as [f0' inst w ar nd he hc hr pe kr]; destruct f0' as [fc fw fn fd fr].
+Ltac open_s s := destruct s as [f0' inst w ar nd he hc hr pe kr ka]; destruct f0' as [fc fw fn fd fr].
 Ltac sfin := unfold Sinv, registered in *; cbn in *; intuition (try discriminate; try congruence).
 
 Lemma flags_eqb_eq a b : flags_eqb a b = true -> a = b.
@@ -42,11 +42,22 @@ Proof.
   open_s s. destruct k as [kt kd kre]. intros H E. cbn in E. subst inst. unfold install. cbn.
   destruct (c_reg_ok o || kt || kd && negb kre); cbn; destruct kt, w, ar, nd, kr, kd; cbn; sfin.
 Qed.
-Lemma Sinv_event k s a : Sinv k s -> kreg s = true -> Sinv k (with_du (with_pending s true) (du_wlh s) a (du_nd s) (kreg s)).
+Lemma Sinv_event k s a b : Sinv k s -> kreg s = true -> Sinv k (with_du (with_pending s true) (du_wlh s) a (du_nd s) (kreg s) b).
 Proof. open_s s. intros H E. cbn in E. subst kr. destruct w, ar, nd, a; sfin. Qed.
 Lemma Sinv_hangup k s : Sinv k s -> kreg s = true -> k_timer k = false ->
-  Sinv k (with_du (with_pending s true) (du_wlh s) false true (kreg s)).
+  Sinv k (with_du (with_pending s true) (du_wlh s) false true (kreg s) false).
 Proof. open_s s. intros H E Et. cbn in E. subst kr. destruct w, ar, nd; sfin. Qed.
+
+Lemma event_src_facts k stay s : Sinv k s -> kreg s = true ->
+  let s1 := event_src k stay s in
+  registered s1 = true /\ Sinv k s1 /\ fl s1 = fl s /\ h_ca s1 = h_ca s /\ installed s1 = installed s.
+Proof.
+  intros HS Kr. pose proof HS as (_ & S2 & _). pose proof (S2 Kr) as W. unfold event_src.
+  destruct (k_rearm k); [|destruct (k_timer k)]; cbv zeta.
+  - split; [unfold registered; cbn; rewrite W; reflexivity|]. split; [apply Sinv_event; assumption|]. repeat split.
+  - split; [unfold registered; cbn; rewrite W; reflexivity|]. split; [apply Sinv_event; assumption|]. repeat split.
+  - split; [unfold registered; cbn; rewrite W; reflexivity|]. split; [apply Sinv_pending; assumption|]. repeat split.
+Qed.
 
 Lemma activate_src_cases k o s :
   activate_src k o s = finalize (with_installed s) /\ canceled (fl s) = true \/
@@ -528,22 +539,29 @@ Qed.
 
 Lemma step_event g t st g' acts : Inv g -> gstep g t (GEvent st) = Some (g', acts) -> Inv g'.
 Proof.
-  intros [HG HT] H. unfold gstep in H. destruct (kreg (g_s g) && du_armed (g_s g)) eqn:E; [|discriminate].
-  apply andb_true_iff in E as [Kr Ar].
-  pose proof HG as ((HA1 & _) & _). pose proof HA1 as (_ & S2 & _).
-  match type of H with (if negb (registered ?s1) && _ then _ else _) = _ => assert (R : registered s1 = true) end.
-  { unfold registered. cbn. rewrite (S2 Kr). reflexivity. }
+  intros [HG HT] H. unfold gstep in H. destruct (kreg (g_s g) && karm (g_s g) && mgr_free g) eqn:E; [|discriminate].
+  apply andb_true_iff in E as [E _]. apply andb_true_iff in E as [Kr Ar].
+  pose proof HG as ((HA1 & _) & _).
+  destruct (event_src_facts (g_k g) st (g_s g) HA1 Kr) as (R & S1 & E1 & E2 & E3). cbv zeta in H.
   rewrite R in H. cbn [negb andb] in H. injection H as <- <-.
-  split; [apply G_src_nil'; cbn; auto; apply Sinv_event; assumption | intros u; apply T_src_nil'; cbn; auto].
+  split; [apply G_src_nil'; auto; rewrite E1; auto | intros u; apply T_src_nil'; auto; rewrite E1; auto].
 Qed.
+
+Lemma GInv_hup g b : GInv (set_hup g b) <-> GInv g.
+Proof. unfold GInv, AInv, BInv, CInv, DInv. cbn. tauto. Qed.
 
 Lemma step_hangup g t g' acts : Inv g -> gstep g t GHangup = Some (g', acts) -> Inv g'.
 Proof.
   intros [HG HT] H. unfold gstep in H.
-  destruct (kreg (g_s g) && registered (g_s g) && negb (k_timer (g_k g))) eqn:E; [|discriminate].
-  apply andb_true_iff in E as [E Kt]. apply andb_true_iff in E as [Kr _]. apply negb_true_iff in Kt. injection H as <- <-.
+  destruct (kreg (g_s g) && registered (g_s g) && negb (k_timer (g_k g)) && negb (k_direct (g_k g)) && mgr_free g) eqn:E; [|discriminate].
+  apply andb_true_iff in E as [E _]. apply andb_true_iff in E as [E _]. apply andb_true_iff in E as [E Kt].
+  apply andb_true_iff in E as [Kr _]. apply negb_true_iff in Kt. injection H as <- <-.
   pose proof HG as ((HA1 & _) & _).
-  split; [apply G_src_nil'; cbn; auto; apply Sinv_hangup; assumption | intros u; apply T_src_nil'; cbn; auto].
+  split.
+  - apply GInv_hup. apply G_src_nil'; cbn; auto. apply Sinv_hangup; assumption.
+  - intros u. assert (T : TInv (set_src g (with_du (with_pending (g_s g) true) (du_wlh (g_s g)) false true (kreg (g_s g)) false) []) u)
+      by (apply T_src_nil'; cbn; auto).
+    revert T. apply TInv_frame; reflexivity.
 Qed.
 
 Lemma G_take_lock g t q pc :
@@ -567,7 +585,8 @@ Qed.
 Lemma step_invoke g t q g' acts : Inv g -> gstep g t (GInvoke q) = Some (g', acts) -> Inv g'.
 Proof.
   intros [HG HT] H. unfold gstep in H. destruct (owner g) eqn:Ow; [discriminate|].
-  destruct (activated g) eqn:Act; [|discriminate]. injection H as <- <-.
+  destruct (activated g) eqn:Act; [|discriminate]. cbn [andb] in H.
+  destruct (negb (queue_eqb q QMgr && m_hup g)); [|discriminate]. injection H as <- <-.
   split.
   - apply G_take_lock; auto; try discriminate.
   - intros u. apply (TInv_frame g _ u); auto.
@@ -783,15 +802,179 @@ Proof.
 Qed.
 
 (* ------------------------------------------------------------------ every reachable state *)
-Lemma step_preserves g t a g' acts : Inv g -> gstep g t a = Some (g', acts) -> Inv g'.
+(* ------------------------------------------------------------------ the hang-up delivery in two halves
+   While the manager is between publishing DU_STATE_NEEDS_DELETE and _dispatch_source_merge_evt's second read of du_state,
+   nobody unregisters the unote: a muxed unote is unregistered on the manager queue only (source.c:788 as fixed, :832), and the
+   manager thread is busy; cancel_and_wait's locked path exists for direct unotes only. *)
+Definition HInv (g : gst) : Prop :=
+  (m_hup g = true ->
+     registered (g_s g) = true /\ k_direct (g_k g) = false /\ k_timer (g_k g) = false /\
+     match owner g with Some _ => queue_eqb (o_q g) QMgr = false | None => True end) /\
+  (in_cd (o_pc g) = true -> k_direct (g_k g) = true) /\
+  (forall t o n, cpc g t = CDecide o n -> deleted o = false -> k_direct (g_k g) = false -> waiter n = true).
+
+Lemma HInv_init k ev ca rg : HInv (init_state k ev ca rg).
+Proof. unfold HInv, init_state. cbn. repeat split; intros; discriminate. Qed.
+
+(* steps that keep the kind, the hang-up flag, the lock owner and every cancel_and_wait caller where they are *)
+Lemma H_frame g g' :
+  HInv g -> g_k g' = g_k g -> m_hup g' = m_hup g -> owner g' = owner g -> o_q g' = o_q g -> o_pc g' = o_pc g ->
+  (forall u, cpc g' u = cpc g u) -> (m_hup g = true -> registered (g_s g) = true -> registered (g_s g') = true) -> HInv g'.
 Proof.
-  intros HI H. destruct a.
+  intros (H1 & H2 & H3) Ek Em Eo Eq Ep Ec Er. unfold HInv. rewrite Ek, Em, Eo, Eq, Ep.
+  split; [|split].
+  - intros M. destruct (H1 M) as (R & X). split; [apply Er; assumption | exact X].
+  - exact H2.
+  - intros t o n. rewrite Ec. apply H3.
+Qed.
+
+Lemma no_hup_inactive g : Inv g -> HInv g -> activated g = false -> m_hup g = false.
+Proof.
+  intros [((HA1 & HA2 & _) & _) _] (H1 & _) Na. destruct (m_hup g) eqn:M; [|reflexivity].
+  destruct (H1 eq_refl) as (R & _). destruct HA1 as (_ & _ & S3 & S4 & _).
+  assert (W : du_wlh (g_s g) = true).
+  { unfold registered in R. destruct (du_wlh (g_s g)); [reflexivity|]. cbn in R. apply S3. apply orb_true_iff in R. exact R. }
+  rewrite (HA2 (S4 W)) in Na. discriminate.
+Qed.
+
+Lemma step_hmerge g t g' acts : Inv g -> HInv g -> gstep g t GHangupMerge = Some (g', acts) -> Inv g' /\ acts = [].
+Proof.
+  intros [HG HT] (H1 & _) H. unfold gstep in H. destruct (m_hup g) eqn:M; [|discriminate].
+  destruct (H1 eq_refl) as (R & _). rewrite R in H. cbn [negb andb] in H. injection H as <- <-.
+  split; [|reflexivity]. split; [apply GInv_hup; exact HG | intros u; apply (TInv_frame g _ u); auto].
+Qed.
+
+Lemma step_H g t a g' acts : Inv g -> HInv g -> gstep g t a = Some (g', acts) -> HInv g'.
+Proof.
+  intros HI HH H. pose proof HI as [HG HT]. pose proof HH as (H1 & H2 & H3).
+  destruct a; unfold gstep in H.
+  - (* GActivate *)
+    destruct (activated g || released (fl (g_s g))) eqn:E; [discriminate|]. apply orb_false_iff in E as [Na _].
+    destruct (activate_src (g_k g) o (g_s g)) as [s1 a] eqn:Ea. injection H as <- _.
+    apply (H_frame g); auto. intros M. rewrite (no_hup_inactive g HI HH Na) in M. discriminate.
+  - destruct (released (fl (g_s g))); [discriminate|].
+    match type of H with (if ?c then _ else _) = _ => destruct c end; [discriminate|]. injection H as <- _.
+    apply (H_frame g); auto.
+  - destruct (released (fl (g_s g))); [discriminate|]. injection H as <- _. apply (H_frame g); auto.
+  - destruct (released (fl (g_s g))); [discriminate|]. injection H as <- _. apply (H_frame g); auto.
+  - (* GEvent *)
+    destruct (kreg (g_s g) && karm (g_s g) && mgr_free g) eqn:E; [|discriminate].
+    apply andb_true_iff in E as [E _]. apply andb_true_iff in E as [Kr _].
+    destruct HG as ((HA1 & _) & _).
+    destruct (event_src_facts (g_k g) stay_armed (g_s g) HA1 Kr) as (R & _). cbv zeta in H.
+    rewrite R in H. cbn [negb andb] in H. injection H as <- _. apply (H_frame g); auto.
+  - (* GHangup *)
+    destruct (kreg (g_s g) && registered (g_s g) && negb (k_timer (g_k g)) && negb (k_direct (g_k g)) && mgr_free g) eqn:E; [|discriminate].
+    apply andb_true_iff in E as [E Mf]. apply andb_true_iff in E as [E Kd]. apply andb_true_iff in E as [E Kt].
+    apply andb_true_iff in E as [Kr _]. apply negb_true_iff in Kt, Kd. injection H as <- _.
+    destruct HG as ((HA1 & _) & _). destruct HA1 as (_ & S2 & _).
+    unfold HInv. cbn. split; [|split].
+    + intros _. split; [unfold registered; cbn; rewrite (S2 Kr); reflexivity|]. split; [exact Kd|]. split; [exact Kt|].
+      unfold mgr_free in Mf. apply andb_true_iff in Mf as [_ Mf]. destruct (owner g); [apply negb_true_iff in Mf; exact Mf | exact I].
+    + exact H2.
+    + exact H3.
+  - (* GHangupMerge *)
+    destruct (m_hup g) eqn:M; [|discriminate]. destruct (H1 eq_refl) as (R & _). rewrite R in H. cbn [negb andb] in H.
+    injection H as <- _. unfold HInv. cbn. split; [intros X; discriminate | split; assumption].
+  - (* GInvoke *)
+    destruct (owner g) eqn:Ow; [discriminate|]. destruct (activated g); [|discriminate]. cbn [andb] in H.
+    destruct (negb (queue_eqb q QMgr && m_hup g)) eqn:Q; [|discriminate]. injection H as <- _.
+    unfold HInv. cbn. split; [|split].
+    + intros M. destruct (H1 M) as (R & Kd & Kt & _). rewrite M, andb_true_r in Q. apply negb_true_iff in Q. auto.
+    + intros X; discriminate.
+    + exact H3.
+  - (* GPhase *)
+    pose proof (gstep_phase g t o g' acts H) as S. cbv zeta in S.
+    set (i0 := mkI (g_s g) (o_pc g) (o_dqf g) (o_retq g) (o_avoid g)) in *. set (p := phase (g_k g) (o_q g) o i0) in *.
+    destruct S as (Ow & Ea & Es & Epc & Edqf & Ek & Eact & Eq & Eow & _ & _ & _ & _ & _ & _ & _ & Ecpo & Ecpt).
+    assert (Em : m_hup g' = m_hup g).
+    { unfold gstep in H. destruct (negb (is_owner g t)); [discriminate|]. fold i0 in H. fold p in H.
+      destruct p; injection H as <- _; [reflexivity|]. destruct (cpc g t); reflexivity. }
+    pose proof (phase_facts2 (g_k g) (o_q g) o i0) as K. cbv zeta in K. fold p in K. cbn [i_src i_pc i_dqf i0] in K.
+    destruct K as (_ & _ & _ & _ & _ & _ & _ & K8 & _).
+    unfold HInv. rewrite Ek, Em, Es, Epc, Eq. split; [|split].
+    + intros M. destruct (H1 M) as (R & Kd & Kt & Oq). rewrite Ow in Oq. split; [|split; [exact Kd|split; [exact Kt|]]].
+      * destruct (registered (res_src p)) eqn:R'; [reflexivity|]. exfalso.
+        destruct (phase_unreg (g_k g) (o_q g) o i0 R R') as [X|[X|[X|X]]].
+        -- unfold dkq in X. rewrite Kd in X. congruence.
+        -- congruence.
+        -- congruence.
+        -- cbn [i_pc i0] in X. rewrite (H2 X) in Kd. discriminate.
+      * rewrite Eow. destruct p; [rewrite Ow; exact Oq | exact I].
+    + intros X. apply H2. apply K8. exact X.
+    + intros u o' n Hc. destruct (Z.eq_dec u t) as [->|Ne].
+      * destruct Ecpt as [Ec|[_ Ec]]; [rewrite Ec in Hc; apply (H3 t o' n Hc) | rewrite Ec in Hc; discriminate].
+      * rewrite (Ecpo u Ne) in Hc. apply (H3 u o' n Hc).
+  - (* GCawEnter *)
+    destruct (cpc g t) eqn:Ec; try discriminate.
+    match type of H with (if ?c then _ else _) = _ => destruct c end; [discriminate|].
+    destruct (m_caw_loop (g_k g) (fl (g_s g))) as [f'|] eqn:L; injection H as <- _.
+    + unfold HInv. cbn. split; [exact H1|]. split; [exact H2|].
+      intros u o' n Hc Dl Kd. destruct (Z.eq_dec u t) as [->|Ne].
+      * rewrite upd_same in Hc. injection Hc as <- <-. unfold m_caw_loop in L. destruct (waiter (fl (g_s g))); [discriminate|].
+        injection L as <-. cbn. rewrite Dl, Kd. cbn. apply orb_true_r.
+      * rewrite upd_other in Hc by exact Ne. apply (H3 u o' n Hc Dl Kd).
+    + unfold HInv. cbn. split; [exact H1|]. split; [exact H2|].
+      intros u o' n Hc Dl Kd. destruct (Z.eq_dec u t) as [->|Ne].
+      * rewrite upd_same in Hc. injection Hc as <- <-. cbn. apply (caw_loop_none _ _ L).
+      * rewrite upd_other in Hc by exact Ne. apply (H3 u o' n Hc Dl Kd).
+  - (* GCawStep *)
+    assert (Cp : forall g1 p, (forall o' n, p <> CDecide o' n) -> g_k g1 = g_k g -> m_hup g1 = m_hup g -> owner g1 = owner g ->
+                  o_q g1 = o_q g -> o_pc g1 = o_pc g -> (forall u, cpc g1 u = cpc g u) ->
+                  (m_hup g = true -> registered (g_s g) = true -> registered (g_s g1) = true) -> HInv (set_cpc g1 t p)).
+    { intros g1 p Np Ek Em Eo Eq Ep Ec Er. pose proof (H_frame g g1 HH Ek Em Eo Eq Ep Ec Er) as (X1 & X2 & X3).
+      unfold HInv. cbn. split; [exact X1|]. split; [exact X2|].
+      intros u o' n Hc. destruct (Z.eq_dec u t) as [->|Ne].
+      - rewrite upd_same in Hc. contradiction (Np o' n Hc).
+      - rewrite upd_other in Hc by exact Ne. apply (X3 u o' n Hc). }
+    destruct (cpc g t) as [ | oldf newf | | | d | d | | ] eqn:Ec; try discriminate.
+    + destruct (deleted oldf) eqn:Do; [injection H as <- _; apply Cp; auto; discriminate|].
+      destruct (waiter newf) eqn:Wn; [injection H as <- _; apply Cp; auto; discriminate|].
+      destruct (activated g) eqn:Na; cbn [negb] in H.
+      * destruct lock.
+        -- destruct (owner g) eqn:Ow; [discriminate|]. injection H as <- _.
+           assert (Kd : k_direct (g_k g) = true).
+           { destruct (k_direct (g_k g)) eqn:X; [reflexivity|]. rewrite (H3 t oldf newf Ec Do eq_refl) in Wn. discriminate. }
+           unfold HInv. cbn. split; [|split].
+           ++ intros M. destruct (H1 M) as (R & Kd' & _). congruence.
+           ++ intros _. exact Kd.
+           ++ intros u o' n Hc. destruct (Z.eq_dec u t) as [->|Ne]; [rewrite upd_same in Hc; discriminate|].
+              rewrite upd_other in Hc by exact Ne. apply (H3 u o' n Hc).
+        -- injection H as <- _. apply Cp; auto; discriminate.
+      * destruct (canceled (fl (g_s g))); [|discriminate].
+        destruct (activate_src (g_k g) o (g_s g)) as [s1 a] eqn:Ea. injection H as <- _.
+        apply Cp; auto; try discriminate. intros M. rewrite (no_hup_inactive g HI HH Na) in M. discriminate.
+    + injection H as <- _. apply Cp; auto; discriminate.
+    + destruct (deleted d); [injection H as <- _; apply Cp; auto; discriminate|].
+      destruct (negb (waiter d)); [|injection H as <- _; apply Cp; auto; discriminate].
+      destruct (flags_eqb (fl (g_s g)) d); injection H as <- _; apply Cp; auto; discriminate.
+    + destruct (flags_eqb (fl (g_s g)) d && lock); injection H as <- _.
+      * assert (X : HInv (set_cpc g t CWSleep)) by (apply Cp; auto; discriminate). exact X.
+      * apply Cp; auto; discriminate.
+    + injection H as <- _. assert (X : HInv (set_cpc g t CIdle)) by (apply Cp; auto; discriminate). exact X.
+  - (* GFutexRet *)
+    destruct (cpc g t) eqn:Ec; try discriminate. injection H as <- _.
+    assert (X : HInv (set_cpc g t CWLoad)).
+    { pose proof (H_frame g g HH eq_refl eq_refl eq_refl eq_refl eq_refl (fun _ => eq_refl) (fun _ r => r)) as (X1 & X2 & X3).
+      unfold HInv. cbn. split; [exact X1|]. split; [exact X2|]. intros u o' n Hc. destruct (Z.eq_dec u t) as [->|Ne].
+      - rewrite upd_same in Hc. discriminate.
+      - rewrite upd_other in Hc by exact Ne. apply (X3 u o' n Hc). }
+    exact X.
+Qed.
+
+Definition Inv2 (g : gst) : Prop := Inv g /\ HInv g.
+
+Lemma step_preserves g t a g' acts : Inv2 g -> gstep g t a = Some (g', acts) -> Inv2 g'.
+Proof.
+  intros [HI HH] H. split; [|eapply step_H; eassumption].
+  destruct a.
   - eapply step_activate; eassumption.
   - eapply step_cancel; eassumption.
   - eapply step_release; eassumption.
   - eapply step_merge; eassumption.
   - eapply step_event; eassumption.
   - eapply step_hangup; eassumption.
+  - eapply step_hmerge; eassumption.
   - eapply step_invoke; eassumption.
   - split; [eapply phase_G; eassumption | eapply phase_T; eassumption].
   - eapply step_caw_enter; eassumption.
@@ -799,12 +982,14 @@ Proof.
   - eapply step_futex_ret; eassumption.
 Qed.
 
-Theorem Inv_reach k ev ca rg g : reach k ev ca rg g -> Inv g.
+Theorem Inv2_reach k ev ca rg g : reach k ev ca rg g -> Inv2 g.
 Proof.
   unfold reach. apply invariant_lift.
-  - intros s ->. apply Inv_init.
+  - intros s ->. split; [apply Inv_init | apply HInv_init].
   - intros s [t a] s' HI [acts H]. eapply step_preserves; eassumption.
 Qed.
+Theorem Inv_reach k ev ca rg g : reach k ev ca rg g -> Inv g.
+Proof. intros R. apply (Inv2_reach k ev ca rg g R). Qed.
 
 (* ------------------------------------------------------------------ consequences *)
 Lemma activate_acts g o :
@@ -823,10 +1008,10 @@ Qed.
 
 (* the only steps that perform callouts or finalize twice could be phases of the lock owner *)
 Lemma nonphase_acts g t a g' acts :
-  Inv g -> gstep g t a = Some (g', acts) -> (forall o, a <> GPhase o) ->
+  Inv2 g -> gstep g t a = Some (g', acts) -> (forall o, a <> GPhase o) ->
   count AEhBegin acts = 0 /\ count AChBegin acts = 0 /\ existsb is_fin_twice acts = false.
 Proof.
-  intros HI H Np. pose proof HI as [HG HT].
+  intros [HI HH] H Np. pose proof HI as [HG HT].
   assert (Nil : acts = [] -> count AEhBegin acts = 0 /\ count AChBegin acts = 0 /\ existsb is_fin_twice acts = false)
     by (intros ->; repeat split).
   destruct a; unfold gstep in H.
@@ -837,13 +1022,15 @@ Proof.
     match type of H with (if ?c then _ else _) = _ => destruct c end; [discriminate|]. injection H as _ <-. auto.
   - destruct (released (fl (g_s g))); [discriminate|]. injection H as _ <-. auto.
   - destruct (released (fl (g_s g))); [discriminate|]. injection H as _ <-. auto.
-  - destruct (kreg (g_s g) && du_armed (g_s g)) eqn:E; [|discriminate]. apply andb_true_iff in E as [Kr _].
-    destruct HG as ((HA1 & _) & _). destruct HA1 as (_ & S2 & _).
-    match type of H with (if negb (registered ?s1) && _ then _ else _) = _ => assert (R : registered s1 = true) end.
-    { unfold registered. cbn. rewrite (S2 Kr). reflexivity. }
+  - destruct (kreg (g_s g) && karm (g_s g) && mgr_free g) eqn:E; [|discriminate].
+    apply andb_true_iff in E as [E _]. apply andb_true_iff in E as [Kr _].
+    destruct HG as ((HA1 & _) & _).
+    destruct (event_src_facts (g_k g) stay_armed (g_s g) HA1 Kr) as (R & _). cbv zeta in H.
     rewrite R in H. cbn [negb andb] in H. injection H as _ <-. auto.
   - match type of H with (if ?c then _ else _) = _ => destruct c end; [|discriminate]. injection H as _ <-. auto.
-  - destruct (owner g); [discriminate|]. destruct (activated g); [|discriminate]. injection H as _ <-. auto.
+  - apply Nil. destruct (step_hmerge g t g' acts HI HH H) as [_ X]. exact X.
+  - destruct (owner g); [discriminate|]. destruct (activated g); [|discriminate]. cbn [andb] in H.
+    match type of H with (if ?c then _ else _) = _ => destruct c end; [|discriminate]. injection H as _ <-. auto.
   - exfalso. apply (Np o). reflexivity.
   - destruct (cpc g t); try discriminate.
     match type of H with (if ?c then _ else _) = _ => destruct c end; [discriminate|].
@@ -886,10 +1073,10 @@ Section Consequences.
   (* "Source finalized twice" is unreachable *)
   Theorem finalized_once g t a g' acts : R g -> gstep g t a = Some (g', acts) -> existsb is_fin_twice acts = false.
   Proof.
-    intros Hr H. pose proof (Inv_reach _ _ _ _ _ Hr) as HI.
+    intros Hr H. pose proof (Inv2_reach _ _ _ _ _ Hr) as HI2. pose proof (proj1 HI2) as HI.
     assert (D : (exists o, a = GPhase o) \/ forall o, a <> GPhase o).
     { destruct a; try (right; intros o' X; discriminate). left. eexists; reflexivity. }
-    destruct D as [[o ->]|Np]; [|apply (nonphase_acts g t a g' acts HI H Np)].
+    destruct D as [[o ->]|Np]; [|apply (nonphase_acts g t a g' acts HI2 H Np)].
     destruct HI as [(HA & _ & _ & HD & _) _]. destruct HA as (HA1 & _ & _ & _ & _ & HA6 & _). destruct HD as (_ & _ & _ & HD4).
     pose proof (gstep_phase g t o g' acts H) as S. cbv zeta in S. destruct S as (_ & Ea & _).
     pose proof (phase_facts2 (g_k g) (o_q g) o (mkI (g_s g) (o_pc g) (o_dqf g) (o_retq g) (o_avoid g))) as K.
@@ -909,10 +1096,10 @@ Section Consequences.
     ch_count g = 0 /\ o_pc g = OLatch /\ o_q g = QTarget /\ owner g = Some t /\ late_starts g = 0 /\
     (canceled (fl (g_s g)) = true -> origin g = Some CxThread).
   Proof.
-    intros Hr H Nz. pose proof (Inv_reach _ _ _ _ _ Hr) as HI.
+    intros Hr H Nz. pose proof (Inv2_reach _ _ _ _ _ Hr) as HI2. pose proof (proj1 HI2) as HI.
     assert (D : (exists o, a = GPhase o) \/ forall o, a <> GPhase o).
     { destruct a; try (right; intros o' X; discriminate). left. eexists; reflexivity. }
-    destruct D as [[o ->]|Np]; [|destruct (nonphase_acts g t a g' acts HI H Np) as [X _]; contradiction].
+    destruct D as [[o ->]|Np]; [|destruct (nonphase_acts g t a g' acts HI2 H Np) as [X _]; contradiction].
     destruct HI as [(_ & _ & HC & _) _]. destruct HC as (_ & _ & HC3).
     pose proof (gstep_phase g t o g' acts H) as S. cbv zeta in S. destruct S as (Ow & Ea & _).
     pose proof (phase_facts (g_k g) (o_q g) o (mkI (g_s g) (o_pc g) (o_dqf g) (o_retq g) (o_avoid g))) as F.
@@ -927,10 +1114,10 @@ Section Consequences.
     o_q g = QTarget /\ owner g = Some t /\ o_pc g = OP4 /\ canceled (fl (g_s g)) = true /\ deleted (fl (g_s g)) = true /\
     kreg (g_s g) = false /\ registered (g_s g) = false /\ ch_count g = 0.
   Proof.
-    intros Hr H Nz. pose proof (Inv_reach _ _ _ _ _ Hr) as HI.
+    intros Hr H Nz. pose proof (Inv2_reach _ _ _ _ _ Hr) as HI2. pose proof (proj1 HI2) as HI.
     assert (D : (exists o, a = GPhase o) \/ forall o, a <> GPhase o).
     { destruct a; try (right; intros o' X; discriminate). left. eexists; reflexivity. }
-    destruct D as [[o ->]|Np]; [|destruct (nonphase_acts g t a g' acts HI H Np) as (_ & X & _); contradiction].
+    destruct D as [[o ->]|Np]; [|destruct (nonphase_acts g t a g' acts HI2 H Np) as (_ & X & _); contradiction].
     destruct HI as [(HA & HB & _ & HD & _) _]. destruct HA as (HA1 & _ & _ & _ & _ & _ & HA7).
     destruct HB as (_ & HB2 & _). destruct HD as (_ & HD2 & _).
     pose proof (gstep_phase g t o g' acts H) as S. cbv zeta in S. destruct S as (Ow & Ea & _).
@@ -968,7 +1155,7 @@ Section Consequences.
     deleted (fl (g_s g')) = true -> forall u, slp g' u = false.
   Proof.
     intros Hr H D u. pose proof (Inv_reach _ _ _ _ _ Hr) as HI.
-    destruct (step_preserves g t a g' acts HI H) as [_ HT].
+    destruct (step_preserves g t a g' acts (Inv2_reach _ _ _ _ _ Hr) H) as [[_ HT] _].
     destruct (slp g' u) eqn:E; [|reflexivity]. destruct (HT u) as (_ & _ & _ & _ & _ & T6).
     destruct (T6 E) as (_ & _ & X). congruence.
   Qed.
@@ -987,10 +1174,10 @@ End Consequences.
 
 (* ------------------------------------------------------------------ this platform: no deferred deletion *)
 Lemma nonphase_needs_event g t a g' acts :
-  Inv g -> gstep g t a = Some (g', acts) -> (forall o, a <> GPhase o) ->
+  Inv2 g -> gstep g t a = Some (g', acts) -> (forall o, a <> GPhase o) ->
   needs_event (fl (g_s g')) = true -> needs_event (fl (g_s g)) = true.
 Proof.
-  intros HI H Np. pose proof HI as [HG HT].
+  intros [HI HH] H Np. pose proof HI as [HG HT].
   assert (Act : forall o, activated g = false ->
             needs_event (fl (fst (activate_src (g_k g) o (g_s g)))) = true -> needs_event (fl (g_s g)) = true).
   { intros o Na X. destruct HG as ((HA1 & HA2 & _) & _).
@@ -1007,13 +1194,16 @@ Proof.
     match type of H with (if ?c then _ else _) = _ => destruct c end; [discriminate|]. injection H as <- _. cbn. auto.
   - destruct (released (fl (g_s g))); [discriminate|]. injection H as <- _. cbn. auto.
   - destruct (released (fl (g_s g))); [discriminate|]. injection H as <- _. cbn. auto.
-  - destruct (kreg (g_s g) && du_armed (g_s g)) eqn:E; [|discriminate]. apply andb_true_iff in E as [Kr _].
-    destruct HG as ((HA1 & _) & _). destruct HA1 as (_ & S2 & _).
-    match type of H with (if negb (registered ?s1) && _ then _ else _) = _ => assert (R : registered s1 = true) end.
-    { unfold registered. cbn. rewrite (S2 Kr). reflexivity. }
-    rewrite R in H. cbn [negb andb] in H. injection H as <- _. cbn. auto.
+  - destruct (kreg (g_s g) && karm (g_s g) && mgr_free g) eqn:E; [|discriminate].
+    apply andb_true_iff in E as [E _]. apply andb_true_iff in E as [Kr _].
+    destruct HG as ((HA1 & _) & _).
+    destruct (event_src_facts (g_k g) stay_armed (g_s g) HA1 Kr) as (R & _ & E1 & _). cbv zeta in H.
+    rewrite R in H. cbn [negb andb] in H. injection H as <- _. cbn. rewrite E1. auto.
   - match type of H with (if ?c then _ else _) = _ => destruct c end; [|discriminate]. injection H as <- _. cbn. auto.
-  - destruct (owner g); [discriminate|]. destruct (activated g); [|discriminate]. injection H as <- _. cbn. auto.
+  - destruct HH as (H1 & _). destruct (m_hup g) eqn:M; [|discriminate]. destruct (H1 eq_refl) as (R & _).
+    rewrite R in H. cbn [negb andb] in H. injection H as <- _. cbn. auto.
+  - destruct (owner g); [discriminate|]. destruct (activated g); [|discriminate]. cbn [andb] in H.
+    match type of H with (if ?c then _ else _) = _ => destruct c end; [|discriminate]. injection H as <- _. cbn. auto.
   - exfalso. apply (Np o). reflexivity.
   - destruct (cpc g t); try discriminate.
     match type of H with (if ?c then _ else _) = _ => destruct c end; [discriminate|].
@@ -1048,7 +1238,7 @@ Theorem no_deferred_deletion k ev ca rg g : reachL k ev ca rg g -> needs_event (
 Proof.
   intros Hr. induction Hr as [s Hi | s [t a] s' Hr IH [[acts Hs] Hl]].
   - subst s. reflexivity.
-  - cbn in Hs, Hl. pose proof (Inv_reach _ _ _ _ _ (reachL_reach _ _ _ _ _ Hr)) as HI.
+  - cbn in Hs, Hl. pose proof (Inv2_reach _ _ _ _ _ (reachL_reach _ _ _ _ _ Hr)) as HI.
     destruct (needs_event (fl (g_s s'))) eqn:X; [|reflexivity].
     assert (D : (exists o, a = GPhase o) \/ forall o, a <> GPhase o).
     { destruct a; try (right; intros o' Y; discriminate). left. eexists; reflexivity. }
